@@ -189,7 +189,7 @@ func c16Run(env *core.Env, idx int) core.CaseResult {
 			sameURLDifferentContent++
 		}
 		lastVersion = v
-		kind := []string{"ExpandSpec", "ExpandSchemaWithBasePath", "ResolveRefWithBase", "ExpandResponse", "ExpandParameter", "meta-schema", "ExpandSchema(typed-root)", "ExpandSpec(shared-options,no-base)", "ExpandSchema(root-with-id)", "nil-options", "reused-ref-value", "invalid-base-then-invalid-id"}[rng.Intn(12)]
+		kind := []string{"ExpandSpec", "ExpandSchemaWithBasePath", "ResolveRefWithBase", "ExpandResponse", "ExpandParameter", "meta-schema", "ExpandSchema(typed-root)", "ExpandSpec(shared-options,no-base)", "ExpandSchema(root-with-id)", "nil-options", "reused-ref-value", "invalid-base-then-invalid-id", "reused-options-moved-base"}[rng.Intn(13)]
 		if kind == "ExpandSpec(shared-options,no-base)" && !o.AbsOnly {
 			kind = "ExpandSpec" // without a base location only absolute and fragment-only references are meaningful
 		}
@@ -578,6 +578,74 @@ func c16Run(env *core.Env, idx int) core.CaseResult {
 			if got := s.Properties["a"].Title; got != "target "+tag || len(reqs) != 1 || reqs[0] != target {
 				report("result-depends-on-earlier-call", fmt.Sprintf("\"c16-target.json#/definitions/t\" below an invalid id resolved to %q with requests %v; this call's document at %s holds %q", got, reqs, target, "target "+tag))
 			}
+		case "reused-options-moved-base":
+			// one option structure, reused by its owner for two roots in different directories: between the calls the owner points
+			// RelativeBase at the other root (also through a by-value copy of the structure). Each call must read its relative $ref
+			// next to the root it was given - nothing worked out for the first base may be remembered in or next to the structure.
+			tag := fmt.Sprintf("v%d-%d", v, step)
+			dirs := []string{"file:///c16m/one/", "file:///c16m/two/", "http://c16m.example/three/"}
+			var reqs []string
+			ml := func(u string) (json.RawMessage, error) {
+				reqs = append(reqs, u)
+				for _, d := range dirs {
+					if u == d+"leaf.json" {
+						return json.RawMessage(`{"definitions":{"t":{"title":"leaf of ` + d + ` ` + tag + `","type":"object"}}}`), nil
+					}
+				}
+				return nil, fmt.Errorf("no document at %s", u)
+			}
+			own := &spec.ExpandOptions{PathLoader: ml, AbsoluteCircularRef: rng.Intn(2) == 0}
+			order := rng.Perm(len(dirs))
+			for n, di := range order {
+				d := dirs[di]
+				use := own
+				own.RelativeBase = d + "root.json"
+				if n > 0 && rng.Intn(2) == 0 {
+					cp := *own // a by-value copy carries every field of the original
+					use = &cp
+				}
+				snap := snapOpts(use)
+				reqs = nil
+				want := "leaf of " + d + " " + tag
+				var got string
+				var err error
+				var pan string
+				how := rng.Intn(3)
+				switch how {
+				case 0:
+					s := spec.RefSchema("leaf.json#/definitions/t")
+					err, pan = guard(func() error { return spec.ExpandSchemaWithBasePath(s, nil, use) })
+					got = s.Title
+				case 1:
+					r := spec.MustCreateRef("leaf.json#/definitions/t")
+					var sch *spec.Schema
+					err, pan = guard(func() error {
+						var e error
+						sch, e = spec.ResolveRefWithBase(nil, &r, use)
+						return e
+					})
+					if sch != nil {
+						got = sch.Title
+					}
+				default:
+					sw := new(spec.Swagger)
+					_ = json.Unmarshal([]byte(`{"swagger":"2.0","info":{"title":"t","version":"1"},"paths":{},"definitions":{"d":{"$ref":"leaf.json#/definitions/t"}}}`), sw)
+					err, pan = guard(func() error { return spec.ExpandSpec(sw, use) })
+					got = sw.Definitions["d"].Title
+				}
+				res.Evals++
+				if pan != "" || err != nil {
+					report("result-depends-on-earlier-call", fmt.Sprintf("reused option structure, base now %sroot.json (entry %d, use %d): %v %s (requests: %v)", d, how, n, err, pan, reqs))
+					break
+				}
+				if got != want {
+					report("result-depends-on-earlier-call", fmt.Sprintf("reused option structure, base now %sroot.json (entry %d, use %d): \"leaf.json#/definitions/t\" gave %q, the document next to this root holds %q (requests: %v)", d, how, n, got, want, reqs))
+				}
+				if after := snapOpts(use); after != snap {
+					report("caller-options-modified", fmt.Sprintf("%s -> %s", snap, after))
+				}
+			}
+			res.Count("moved-base-uses", len(order))
 		case "meta-schema":
 			// expansions involving the built-in meta-schemas, and their resolution without any loader request
 			var rec []string
